@@ -17,7 +17,7 @@ import typing
 from hypothesis import strategies as st
 
 ROOT_NAMES = ["ns", "ns", "vendor", "zeta", "Alpha"]
-SUBS = ["sub", "deep", "x1", "Node"]
+SUBS = ["sub", "deep", "x1", "Node", "A", "Msgs"]
 SHORTS = ["A", "B", "C", "Msg", "Zed", "a1"]
 
 
